@@ -120,6 +120,13 @@ TEMPLATES = {
     "IFEMPTYNUM": 'IF A THEN ELSE PRINT "{t}"',
     "IFEMPTYL": "IF A <= 1 THEN ELSE {G}",
     "IFEMPTYELSEPART": 'IF A >= 1 THEN PRINT "{t}" ELSE',
+    # jumps back to line 0 (a legal line number; a one-shot guard keeps the program finite)
+    "BACK0": 'IF C = 0 THEN C = 1 : PRINT "{t}" : GOTO {Z}',
+    "THEN0": "C = C + 1 : IF C = 1 THEN {Z}",
+    "ELSE0": 'IF C <> 0 THEN PRINT "{t}" ELSE C = 1 : GOTO {Z}',
+    "ONGOTO0": "C = C + 1 : IF C = 1 THEN ON A GOTO {Z} , {G}",
+    "ONGOTODUP": "ON A GOTO {G} , {G} , {H}",
+    "ONGOSUBDUP": 'ON A GOSUB {S} , {S2} , {S} : PRINT "{t}"',
     "END": "END",
     "STOP": "STOP",
     "IFEND": "IF A = 1 THEN END",
@@ -130,7 +137,7 @@ PAIR_ONLY = {"FORIF": "NEXTI", "FORLINE": "NEXTBARE"}
 SOLO_EXCLUDED = {"NEXTI", "NEXTBARE"}
 # variations of one construct: on their own and next to a few simple neighbours, not in every pair
 VARIANTS = {"IFLT", "IFGT", "IFLE", "IFGE", "IFNE", "IFEMPTYLT", "IFEMPTYGT", "IFEMPTYLE", "IFEMPTYGE", "IFEMPTYEQ", "IFEMPTYNE", "IFEMPTYCOLON", "IFEMPTYAND",
-            "IFEMPTYNUM", "IFEMPTYL", "IFEMPTYELSEPART", "FORSYMNEGSTEP", "FORSYMPOSSTEP", "FORSYMPARSTEP", "FORSYMPLUSSTEP"}
+            "IFEMPTYNUM", "IFEMPTYL", "IFEMPTYELSEPART", "BACK0", "THEN0", "ELSE0", "ONGOTO0", "ONGOTODUP", "ONGOSUBDUP", "FORSYMNEGSTEP", "FORSYMPOSSTEP", "FORSYMPARSTEP", "FORSYMPLUSSTEP"}
 
 OPTION_SETS = [
     dict(filter_unused_linenum=False, initialize_vars=False),
@@ -143,7 +150,7 @@ OPTION_SETS = [
 def build(names):
     """assemble the program text for a list of template names"""
     n = len(names)
-    lines = ["5 INPUT A , B"]
+    lines = (['0 PRINT "Z"'] if any("{Z}" in TEMPLATES[nm] for nm in names) else []) + ["5 INPUT A , B"]
     tag = [0]
 
     def fresh():
@@ -157,11 +164,13 @@ def build(names):
         text = TEMPLATES[name]
         while "{t}" in text:
             text = text.replace("{t}", fresh(), 1)
-        text = text.replace("{G}", str(end_line)).replace("{S}", str(sub_line)).replace("{H}", str(tgt_line))
+        text = text.replace("{G}", str(end_line)).replace("{S2}", str(sub_line + 5)).replace("{S}", str(sub_line)).replace("{H}", str(tgt_line)).replace("{Z}", "0")
         for k, part in enumerate(text.split("\n")):
             lines.append(f"{10 * (i + 1) + 3 * k} {part}")
     lines.append(f'{end_line} PRINT "E" : END')
     lines.append(f'{sub_line} PRINT "S" : RETURN')
+    if any("{S2}" in TEMPLATES[nm] for nm in names):
+        lines.append(f'{sub_line + 5} PRINT "S2" : RETURN')
     lines.append(f'{tgt_line} PRINT "H" : END')
     return "\n".join(lines)
 
